@@ -173,7 +173,12 @@ def evaluate(ast, env, labels):
     """Reference value of an AST as a z3 term: exact integer arithmetic (no wrap within the stated bounds)."""
     t = ast[0]
     if t == 'v':
-        return env.z(ast[1])
+        try:
+            return env.z(ast[1])
+        except KeyError:
+            if ast[1] in labels:          # a predefined constant with a concrete value
+                return zv(labels[ast[1]])
+            raise
     if t == 'lbl':
         return zv(labels[ast[1]])
     if t == 'c':
